@@ -22,6 +22,10 @@ func (e *OnlyExpr) Evaluate(engine *Engine, input interface{}, args []*Statement
 	}
 
 	inputSliceType := TypeOfSliceElement(input)
+	if inputSliceType == nil {
+		// A list of anything ([]interface{}): keep that element type.
+		inputSliceType = in.Type().Elem()
+	}
 	results := reflect.MakeSlice(reflect.SliceOf(inputSliceType), 0, 0)
 
 	condition := args[0]
